@@ -349,6 +349,8 @@ def reshape(tens, shape, eps=1e-16, rmax=sys.maxsize):
     """
 
     dfin = len(shape)
+    if any((s[0] < 1 or s[1] < 1) if isinstance(s, tuple) else s < 1 for s in shape):
+        raise ShapeMismatch('The mode sizes must be positive. Check the given shape.')
     cores, R = rl_orthogonal(tens.cores, tens.R, tens.is_ttm)
     if tens.is_ttm:
         M = []
